@@ -329,6 +329,7 @@ class Counter:
         self.notes: List[str] = []
         self.event_nodes: Dict[str, List[Tuple[Func, ast.AST]]] = {}
         self.track_tables = track_tables
+        self.list_ctx: Dict[str, tuple] = {}
 
     # ---------------------------------------------------------------- public
     def summary(self, func: Func, tables=(), assume=None, stack=()) -> Emis:
@@ -597,10 +598,14 @@ class Counter:
             if len(defs) == 1 and defs[0].kind == 'assign' and defs[0].value is not None:
                 v = defs[0].value
                 if (isinstance(v, ast.List) and not v.elts) or match("list()", v):
-                    why = self._built_list_problem(e.id, st, at)
+                    why = self._built_list_problem(e.id, st, at, defs[0].node)
                     if why:
                         self.notes.append(f"{st.func.qual}: list `{e.id}` {why}")
                         return 'expr:' + e.id
+                    # loops around the initialisation: the list is a fresh one in each of their rounds, so its length is the
+                    # append count of ONE round (see _resolve)
+                    self.list_ctx[e.id] = tuple(self._loop_atom(fo, st) for fo in st.cfg.enclosing_fors(defs[0].node)) \
+                        if defs[0].node is not None else ()
                     return '@' + e.id
                 r = self._len_atom(v, st, defs[0].node, depth + 1)
                 return 'var:' + e.id if r.startswith('expr:') else r
@@ -658,16 +663,20 @@ class Counter:
             return f"lit:{len(e.elts)}"
         return 'expr:' + src(e)
 
-    def _built_list_problem(self, name: str, st, at) -> Optional[str]:
+    def _built_list_problem(self, name: str, st, at, init=None) -> Optional[str]:
         """a list usable as a counted collection: only `.append(x)` mutates it, it does not escape into a call before
-        the loop, and no append can still happen once the loop at `at` has started"""
+        the loop, and no append can still happen once the loop at `at` has started (an append that is only reached again
+        through the re-initialisation `name = []` at node `init` - the next round of an enclosing loop - fills a new list)"""
+        after = None
+        if init is not None and init is not at:
+            after = st.cfg._reachable_from(at, avoid={init.id})
         for n in walk_no_nested(st.func.node):
             if isinstance(n, ast.Call):
                 fn = n.func
                 if isinstance(fn, ast.Attribute) and isinstance(fn.value, ast.Name) and fn.value.id == name:
                     if fn.attr == 'append':
                         an = st.flow.node_of_expr(n)
-                        if an is not None and (st.cfg.can_reach(at, an) or an is at):
+                        if an is not None and ((an.id in after if after is not None else st.cfg.can_reach(at, an)) or an is at):
                             return "is still appended to after/inside the loop that reads it"
                     elif fn.attr in ('extend', 'insert', 'pop', 'remove', 'clear', 'sort', 'reverse'):
                         return f"is mutated by .{fn.attr}()"
@@ -699,7 +708,11 @@ class Counter:
                     app = em.get('append:' + k[j][1:], {})
                     rest = k[:j] + k[j + 1:]
                     for ka, (alo, ahi) in app.items():
-                        kk = rest + ka
+                        ka = list(ka)
+                        for outer in self.list_ctx.get(k[j][1:], ()):
+                            if outer in ka and outer in rest:
+                                ka.remove(outer)
+                        kk = rest + tuple(ka)
                         l0, h0 = nxt.get(kk, (0, 0))
                         nxt[kk] = (l0 + lo * alo, h0 + hi * ahi)
                 cur = nxt
